@@ -69,9 +69,14 @@ func startMemWatch() {
 	})
 }
 
+// MemStops counts the runs the memory watchdog has stopped so far: a harness that runs one
+// program many times (variants, inputs) can skip the rest of a program that blows the heap up.
+var MemStops int
+
 // afterRun releases a blown-up heap before the next program starts.
 func afterRun() {
 	if memOver.Load() {
+		MemStops++
 		fmt.Fprintln(os.Stderr, "verif: memory watchdog stopped a run")
 		runtime.GC()
 		debug.FreeOSMemory()
